@@ -265,10 +265,19 @@ func scenMalformed(rep *Report, tier string, seed int64) {
 				change := first / 3
 				left := x - first + change
 				second := left + 1 + uint64(r.Intn(int(first-change)))
-				b.TX = append(b.TX, g.Batch(h, u, []fat2.Transaction{
-					Transfer(u.FA(), tk, fat2.AddressAmountTuple{Address: o1, Amount: first - change}, fat2.AddressAmountTuple{Address: u.FA(), Amount: change}),
-					Transfer(u.FA(), tk, fat2.AddressAmountTuple{Address: o2, Amount: second})}))
-				rep.Count("malformed:change-output-overdraft")
+				if i%4 == 1 {
+					b.TX = append(b.TX, g.Batch(h, u, []fat2.Transaction{
+						Transfer(u.FA(), tk, fat2.AddressAmountTuple{Address: o1, Amount: first - change}, fat2.AddressAmountTuple{Address: u.FA(), Amount: change}),
+						Transfer(u.FA(), tk, fat2.AddressAmountTuple{Address: o2, Amount: second})}))
+					rep.Count("malformed:change-output-overdraft")
+				} else {
+					// the overdrawing transfer itself pays back to the sender (its input is within the
+					// balance before the batch, but not within what the first transfer leaves)
+					b.TX = append(b.TX, g.Batch(h, u, []fat2.Transaction{
+						Transfer(u.FA(), tk, fat2.AddressAmountTuple{Address: o1, Amount: first}),
+						Transfer(u.FA(), tk, fat2.AddressAmountTuple{Address: u.FA(), Amount: x})}))
+					rep.Count("malformed:self-output-overdraft")
+				}
 				break
 			}
 		}
